@@ -290,12 +290,12 @@ func specCallback(spec *FuncSpec) string {
 
 func (x *Exec) finishSpecCall(st *State, p *pendingSpecCall, cbResult Val) {
 	spec := p.spec
-	// havoc the frame
-	x.havocPatterns(st, spec.Modifies, p.tctx)
+	// new allocation watermark first (the havocked heap may hold objects the callee allocated), then havoc the frame
 	w := x.freshInt("alloc")
 	st.assume(le(st.alloc, w))
 	allocBefore := st.alloc
 	st.alloc = w
+	x.havocPatterns(st, spec.Modifies, p.tctx)
 	res := x.resultVal(st, p.sig, "r."+shorten(p.label, 24))
 	names := map[string]Val{}
 	for k, v := range p.names {
